@@ -148,8 +148,8 @@ Lemma rs_ex_fsr_image :
   let r := rp_open wm_zero_summ1 wm_zero_summN rwd_fsr_image in
   rp_fault r = 0 /\ rp_rc r = 0 /\ rw_pos rwd_fsr_image = 2928 /\ rw_T rwd_fsr_image 2928 = 3016 /\ rw_heads_below rwd_fsr_image = true /\
   rw_check true rwd_fsr_image 2928 (rp_events r) = true /\ rs_all_clear rwd_fsr_image 2928 (rp_events r) = true /\
-  length (rp_events r) = 34%nat /\ length (rs_chain 3017 rwd_fsr_image 32) = 28%nat /\
-  In (1696, fm_ch_fields (fm_sub 1696 32 rwd_fsr_image)) (rs_chain 3017 rwd_fsr_image 32) /\
+  length (rp_events r) = 34%nat /\ length (rs_chain (S (length rwd_fsr_image)) rwd_fsr_image 32) = 28%nat /\
+  In (1696, fm_ch_fields (fm_sub 1696 32 rwd_fsr_image)) (rs_chain (S (length rwd_fsr_image)) rwd_fsr_image 32) /\
   fm_tag (fm_ch_fields (fm_sub 1696 32 rwd_fsr_image)) = JLS_TAG_TRACK_FSR_DATA.
 Proof. vm_compute. repeat split. do 15 right. left. reflexivity. Qed.
 
